@@ -218,7 +218,18 @@ func ParseFunction(parameterList, body string) (*ast.FunctionLiteral, error) {
 		return nil, err
 	}
 
-	return program.Body[0].(*ast.ExpressionStatement).Expression.(*ast.FunctionLiteral), nil
+	// The parameters and the body must each be complete (15.3.2.1): a text that
+	// closes the function early and goes on with something else is not a
+	// function body.
+	if len(program.Body) == 1 {
+		if statement, ok := program.Body[0].(*ast.ExpressionStatement); ok {
+			if function, ok := statement.Expression.(*ast.FunctionLiteral); ok {
+				return function, nil
+			}
+		}
+	}
+	p.error(file.Idx(1), "Unexpected token }")
+	return nil, p.errors.Err()
 }
 
 // Scan reads a single token from the source at the current offset, increments the offset and
